@@ -3,6 +3,7 @@ Facts about restarts (`^~`) in the reference evaluator: an expression without a 
 asks for a restart, and applying a value never does.
 -/
 import Garnish.Lemmas.CompileBase
+import Garnish.Lemmas.CompileStrict
 namespace Garnish.Abs
 open Garnish Gen Garnish.Spec
 
@@ -11,11 +12,11 @@ variable {F : Type} {fo : FloatOps F} {host : Host F}
 /-- applying a value yields a value (a restart inside the applied body restarts that body) -/
 theorem applyVals_val {bodies : List (Nat × Expr F)} {cur fuel : Nat} {instr : Instruction} {useRight : Bool}
     {f x : Val F} {st st' : St F} {res : Res F}
-    (h : applyVals fo host bodies cur fuel instr useRight f x st = .ok (res, st')) : ∃ v, res = .val v := by
+    (h : applyValsS fo host bodies cur fuel instr useRight f x st = .ok (res, st')) : ∃ v, res = .val v := by
   cases fuel with
-  | zero => simp [applyVals] at h
+  | zero => simp [applyValsS] at h
   | succ fuel =>
-    simp only [applyVals] at h
+    simp only [applyValsS] at h
     split at h
     · split at h
       · simp at h
@@ -29,21 +30,21 @@ section
 variable (fo host) (bodies : List (Nat × Expr F))
 
 def NoRE (fuel : Nat) : Prop := ∀ cur e st v st', noR e = true →
-  evalF fo host bodies cur fuel e st ≠ .ok (.restart v, st')
+  evalFS fo host bodies cur fuel e st ≠ .ok (.restart v, st')
 def NoRL (fuel : Nat) : Prop := ∀ cur items st acc v st', noRList items = true →
-  evalList fo host bodies cur fuel items st acc ≠ .ok (.inr v, st')
+  evalListS fo host bodies cur fuel items st acc ≠ .ok (.inr v, st')
 def NoRC (fuel : Nat) : Prop := ∀ cur arms final st v st', noRArms arms = true →
   (match final with | some e => noR e | none => true) = true →
-  evalChain fo host bodies cur fuel arms final st ≠ .ok (.restart v, st')
+  evalChainS fo host bodies cur fuel arms final st ≠ .ok (.restart v, st')
 end
 
 variable {bodies : List (Nat × Expr F)}
 
 /-- a sub-evaluation that cannot restart either yields a value, or its failure is the failure of the whole -/
 theorem sub_cases {cur fuel : Nat} {x : Expr F} {st : St F} (ih : NoRE fo host bodies fuel) (hx : noR x = true) :
-    (∃ v st1, evalF fo host bodies cur fuel x st = .ok (.val v, st1)) ∨
-    (∃ e, evalF fo host bodies cur fuel x st = .err e) ∨ evalF fo host bodies cur fuel x st = .fuelOut := by
-  cases h : evalF fo host bodies cur fuel x st with
+    (∃ v st1, evalFS fo host bodies cur fuel x st = .ok (.val v, st1)) ∨
+    (∃ e, evalFS fo host bodies cur fuel x st = .err e) ∨ evalFS fo host bodies cur fuel x st = .fuelOut := by
+  cases h : evalFS fo host bodies cur fuel x st with
   | ok p =>
     obtain ⟨r, st1⟩ := p
     cases r with
@@ -78,22 +79,22 @@ theorem settle_ne_restart {st : St F} {o : OpOut F} {v : Val F} {st' : St F} :
 theorem noRE_step {fuel : Nat} (ih : NoRE fo host bodies fuel) (ihL : NoRL fo host bodies fuel)
     (ihC : NoRC fo host bodies fuel) : NoRE fo host bodies (fuel + 1) := by
   intro cur e st v st' hn h
-  have av : ∀ {instr useRight f x st1}, applyVals fo host bodies cur fuel instr useRight f x st1 ≠ .ok (.restart v, st') := by
+  have av : ∀ {instr useRight f x st1}, applyValsS fo host bodies cur fuel instr useRight f x st1 ≠ .ok (.restart v, st') := by
     intro instr useRight f x st1 ha
     obtain ⟨w, hw⟩ := applyVals_val ha
     cases hw
   cases e with
-  | lit w => simp [evalF] at h
-  | input => simp [evalF] at h
+  | lit w => simp [evalFS] at h
+  | input => simp [evalFS] at h
   | ident sym =>
-    simp only [evalF] at h
+    simp only [evalFS] at h
     rcases resolveVal_cases (fo := fo) (host := host) st sym with ⟨w, st1, hr⟩ | ⟨e, hr⟩ <;> simp [hr] at h
-  | nested id => simp [evalF] at h
-  | emptyNested => simp [evalF] at h
+  | nested id => simp [evalFS] at h
+  | emptyNested => simp [evalFS] at h
   | reapply x => simp [noR] at hn
   | unary op x =>
     simp only [noR] at hn
-    simp only [evalF] at h
+    simp only [evalFS] at h
     rcases sub_cases (cur := cur) (st := st) ih hn with ⟨w, st1, hx⟩ | ⟨e, hx⟩ | hx <;> simp only [hx] at h
     · split at h
       · exact av h
@@ -104,7 +105,7 @@ theorem noRE_step {fuel : Nat} (ih : NoRE fo host bodies fuel) (ihL : NoRL fo ho
     · simp at h
   | binary op l r =>
     simp only [noR, Bool.and_eq_true] at hn
-    simp only [evalF] at h
+    simp only [evalFS] at h
     rcases sub_cases (cur := cur) (st := st) ih hn.1 with ⟨w, st1, hx⟩ | ⟨e, hx⟩ | hx <;> simp only [hx] at h
     · rcases sub_cases (cur := cur) (st := st1) ih hn.2 with ⟨w2, st2, hy⟩ | ⟨e, hy⟩ | hy <;> simp only [hy] at h
       · split at h
@@ -118,14 +119,14 @@ theorem noRE_step {fuel : Nat} (ih : NoRE fo host bodies fuel) (ihL : NoRL fo ho
     · simp at h
   | pair l r =>
     simp only [noR, Bool.and_eq_true] at hn
-    simp only [evalF] at h
+    simp only [evalFS] at h
     rcases sub_cases (cur := cur) (st := st) ih hn.2 with ⟨w, st1, hx⟩ | ⟨e, hx⟩ | hx <;> simp only [hx] at h
     · rcases sub_cases (cur := cur) (st := st1) ih hn.1 with ⟨w2, st2, hy⟩ | ⟨e, hy⟩ | hy <;> simp [hy] at h
     · simp at h
     · simp at h
   | applyTo x f =>
     simp only [noR, Bool.and_eq_true] at hn
-    simp only [evalF] at h
+    simp only [evalFS] at h
     rcases sub_cases (cur := cur) (st := st) ih hn.2 with ⟨w, st1, hx⟩ | ⟨e, hx⟩ | hx <;> simp only [hx] at h
     · rcases sub_cases (cur := cur) (st := st1) ih hn.1 with ⟨w2, st2, hy⟩ | ⟨e, hy⟩ | hy <;> simp only [hy] at h
       · exact av h
@@ -135,7 +136,7 @@ theorem noRE_step {fuel : Nat} (ih : NoRE fo host bodies fuel) (ihL : NoRL fo ho
     · simp at h
   | list items =>
     simp only [noR] at hn
-    simp only [evalF] at h
+    simp only [evalFS] at h
     split at h
     · simp at h
     · rename_i w st1 hl
@@ -144,7 +145,7 @@ theorem noRE_step {fuel : Nat} (ih : NoRE fo host bodies fuel) (ihL : NoRL fo ho
     · simp at h
   | cond onTrue c t =>
     simp only [noR, Bool.and_eq_true] at hn
-    simp only [evalF] at h
+    simp only [evalFS] at h
     rcases sub_cases (cur := cur) (st := st) ih hn.1 with ⟨w, st1, hx⟩ | ⟨e, hx⟩ | hx <;> simp only [hx] at h
     · split at h
       · exact ih cur t st1 v st' hn.2 h
@@ -153,11 +154,11 @@ theorem noRE_step {fuel : Nat} (ih : NoRE fo host bodies fuel) (ihL : NoRL fo ho
     · simp at h
   | chain arms final =>
     simp only [noR_chain, Bool.and_eq_true] at hn
-    simp only [evalF] at h
+    simp only [evalFS] at h
     exact ihC cur arms final st v st' hn.1 hn.2 h
   | and l r =>
     simp only [noR, Bool.and_eq_true] at hn
-    simp only [evalF] at h
+    simp only [evalFS] at h
     rcases sub_cases (cur := cur) (st := st) ih hn.1 with ⟨w, st1, hx⟩ | ⟨e, hx⟩ | hx <;> simp only [hx] at h
     · split at h
       · rcases sub_cases (cur := cur) (st := st1) ih hn.2 with ⟨w2, st2, hy⟩ | ⟨e, hy⟩ | hy <;> simp [hy] at h
@@ -166,7 +167,7 @@ theorem noRE_step {fuel : Nat} (ih : NoRE fo host bodies fuel) (ihL : NoRL fo ho
     · simp at h
   | or l r =>
     simp only [noR, Bool.and_eq_true] at hn
-    simp only [evalF] at h
+    simp only [evalFS] at h
     rcases sub_cases (cur := cur) (st := st) ih hn.1 with ⟨w, st1, hx⟩ | ⟨e, hx⟩ | hx <;> simp only [hx] at h
     · split at h
       · simp at h
@@ -175,21 +176,21 @@ theorem noRE_step {fuel : Nat} (ih : NoRE fo host bodies fuel) (ihL : NoRL fo ho
     · simp at h
   | seq a b =>
     simp only [noR, Bool.and_eq_true] at hn
-    simp only [evalF] at h
+    simp only [evalFS] at h
     rcases sub_cases (cur := cur) (st := st) ih hn.1 with ⟨w, st1, hx⟩ | ⟨e, hx⟩ | hx <;> simp only [hx] at h
     · exact ih cur b _ v st' hn.2 h
     · simp at h
     · simp at h
   | sideAfter x b =>
     simp only [noR, Bool.and_eq_true] at hn
-    simp only [evalF] at h
+    simp only [evalFS] at h
     rcases sub_cases (cur := cur) (st := st) ih hn.1 with ⟨w, st1, hx⟩ | ⟨e, hx⟩ | hx <;> simp only [hx] at h
     · rcases sub_cases (cur := cur) (st := st1) ih hn.2 with ⟨w2, st2, hy⟩ | ⟨e, hy⟩ | hy <;> simp [hy] at h
     · simp at h
     · simp at h
   | prefixApply sym x =>
     simp only [noR] at hn
-    simp only [evalF] at h
+    simp only [evalFS] at h
     rcases resolveVal_cases (fo := fo) (host := host) st sym with ⟨w, st1, hr⟩ | ⟨e, hr⟩ <;> simp only [hr] at h
     · rcases sub_cases (cur := cur) (st := st1) ih hn with ⟨w2, st2, hy⟩ | ⟨e, hy⟩ | hy <;> simp only [hy] at h
       · exact av h
@@ -198,7 +199,7 @@ theorem noRE_step {fuel : Nat} (ih : NoRE fo host bodies fuel) (ihL : NoRL fo ho
     · simp at h
   | suffixApply x sym =>
     simp only [noR] at hn
-    simp only [evalF] at h
+    simp only [evalFS] at h
     rcases resolveVal_cases (fo := fo) (host := host) st sym with ⟨w, st1, hr⟩ | ⟨e, hr⟩ <;> simp only [hr] at h
     · rcases sub_cases (cur := cur) (st := st1) ih hn with ⟨w2, st2, hy⟩ | ⟨e, hy⟩ | hy <;> simp only [hy] at h
       · exact av h
@@ -207,7 +208,7 @@ theorem noRE_step {fuel : Nat} (ih : NoRE fo host bodies fuel) (ihL : NoRL fo ho
     · simp at h
   | infixApply a sym b =>
     simp only [noR, Bool.and_eq_true] at hn
-    simp only [evalF] at h
+    simp only [evalFS] at h
     rcases resolveVal_cases (fo := fo) (host := host) st sym with ⟨w, st1, hr⟩ | ⟨e, hr⟩ <;> simp only [hr] at h
     · rcases sub_cases (cur := cur) (st := st1) ih hn.1 with ⟨w2, st2, hy⟩ | ⟨e, hy⟩ | hy <;> simp only [hy] at h
       · rcases sub_cases (cur := cur) (st := st2) ih hn.2 with ⟨w3, st3, hz⟩ | ⟨e, hz⟩ | hz <;> simp only [hz] at h
@@ -222,10 +223,10 @@ theorem noRL_step {fuel : Nat} (ih : NoRE fo host bodies fuel) (ihL : NoRL fo ho
     NoRL fo host bodies (fuel + 1) := by
   intro cur items st acc v st' hn h
   cases items with
-  | nil => simp [evalList] at h
+  | nil => simp [evalListS] at h
   | cons x xs =>
     simp only [noRList, Bool.and_eq_true] at hn
-    simp only [evalList] at h
+    simp only [evalListS] at h
     rcases sub_cases (cur := cur) (st := st) ih hn.1 with ⟨w, st1, hx⟩ | ⟨e, hx⟩ | hx <;> simp only [hx] at h
     · exact ihL cur xs st1 (w :: acc) v st' hn.2 h
     · simp at h
@@ -237,14 +238,14 @@ theorem noRC_step {fuel : Nat} (ih : NoRE fo host bodies fuel) (ihC : NoRC fo ho
   cases arms with
   | nil =>
     cases final with
-    | none => simp [evalChain] at h
+    | none => simp [evalChainS] at h
     | some e =>
-      simp only [evalChain] at h
+      simp only [evalChainS] at h
       exact ih cur e st v st' hf h
   | cons arm rest =>
     obtain ⟨onTrue, c, t⟩ := arm
     simp only [noRArms, Bool.and_eq_true] at hn
-    simp only [evalChain] at h
+    simp only [evalChainS] at h
     rcases sub_cases (cur := cur) (st := st) ih hn.1.1 with ⟨w, st1, hx⟩ | ⟨e, hx⟩ | hx <;> simp only [hx] at h
     · split at h
       · exact ih cur t st1 v st' hn.1.2 h
@@ -258,20 +259,20 @@ theorem noR_all (fo : FloatOps F) (host : Host F) (bodies : List (Nat × Expr F)
   induction fuel with
   | zero =>
     refine ⟨?_, ?_, ?_⟩
-    · intro cur e st v st' _ h; simp [evalF] at h
-    · intro cur items st acc v st' _ h; simp [evalList] at h
-    · intro cur arms final st v st' _ _ h; simp [evalChain] at h
+    · intro cur e st v st' _ h; simp [evalFS] at h
+    · intro cur items st acc v st' _ h; simp [evalListS] at h
+    · intro cur arms final st v st' _ _ h; simp [evalChainS] at h
   | succ fuel ih =>
     exact ⟨noRE_step ih.1 ih.2.1 ih.2.2, noRL_step ih.1 ih.2.1, noRC_step ih.1 ih.2.2⟩
 
 /-- an expression without a `^~` of its own body never asks for a restart -/
 theorem noR_sound {cur fuel : Nat} {e : Expr F} {st st' : St F} {v : Val F} (hn : noR e = true) :
-    evalF fo host bodies cur fuel e st ≠ .ok (.restart v, st') :=
+    evalFS fo host bodies cur fuel e st ≠ .ok (.restart v, st') :=
   (noR_all fo host bodies fuel).1 cur e st v st' hn
 
 theorem noRList_sound {cur fuel : Nat} {items : List (Expr F)} {acc : List (Val F)} {st st' : St F} {v : Val F}
     (hn : noRList items = true) :
-    evalList fo host bodies cur fuel items st acc ≠ .ok (.inr v, st') :=
+    evalListS fo host bodies cur fuel items st acc ≠ .ok (.inr v, st') :=
   (noR_all fo host bodies fuel).2.1 cur items st acc v st' hn
 
 end Garnish.Abs
